@@ -98,12 +98,17 @@ def site_nodes(fv, s):
     classes = {c for c, _, _ in fv.c.sites}
     attrs = {a for a, _, _ in fv.c.site_stores}
     found = []
+    call_texts = [t for t, _, _ in fv.c.site_calls]
     for n in ast.walk(s):
         if isinstance(n, ast.Call):
             f = n.func
             nm = f.id if isinstance(f, ast.Name) else (f.attr if isinstance(f, ast.Attribute) else None)
             if nm in classes:
                 found.append(('new', nm, n))
+            elif call_texts:
+                txt = ast.unparse(f)
+                if any(t == txt or txt.endswith('.' + t) or t == txt.split('.')[-1] for t in call_texts):
+                    found.append(('call', txt, n))
         tg = []
         if isinstance(n, ast.Assign):
             tg = n.targets
@@ -135,6 +140,9 @@ def abstract_statement(fv, s, st, reason):
             try:
                 if kind == 'new':
                     fv.ev(node, probe, False)
+                elif kind == 'call':
+                    from .calls import site_call_obligations
+                    site_call_obligations(fv, node, probe)
                 else:
                     fv.exec_block_strict([node], probe)
             except (Unsupported, EngineError) as e:
